@@ -85,9 +85,10 @@ def _agg(adt, variant, ops):
 
 
 class Inliner:
-    def __init__(self, prog, keep, max_depth=3, max_blocks=260):
+    def __init__(self, prog, keep, max_depth=3, max_blocks=260, minimal=False):
         self.prog = prog
         self.keep = keep
+        self.minimal = minimal        # only open helpers and the closures handed to them; leave every other shape as written
         self.max_depth = max_depth
         self.max_blocks = max_blocks
 
@@ -116,10 +117,13 @@ class Inliner:
                 tmp = Body(j, body.facts)
                 c = Call(tmp, b, blk['term'])
                 chain = origin_of_block.get(b, set()) | stack
-                done = (self._inline_helper(j, b, c, chain, origin_of_block) or self._inline_combinator(j, tmp, b, c, chain, origin_of_block)
-                        or self._resolve_indirect(j, tmp, b, c, chain, origin_of_block)
-                        or self._resolve_fn_trait(j, tmp, b, c, chain, origin_of_block)
-                        or self._desugar_pipeline(j, tmp, b, c, chain, origin_of_block))
+                if self.minimal:
+                    done = (self._inline_helper(j, b, c, chain, origin_of_block) or self._resolve_fn_trait(j, tmp, b, c, chain, origin_of_block))
+                else:
+                    done = (self._inline_helper(j, b, c, chain, origin_of_block) or self._inline_combinator(j, tmp, b, c, chain, origin_of_block)
+                            or self._resolve_indirect(j, tmp, b, c, chain, origin_of_block)
+                            or self._resolve_fn_trait(j, tmp, b, c, chain, origin_of_block)
+                            or self._desugar_pipeline(j, tmp, b, c, chain, origin_of_block))
                 if done:
                     progress = True
         if any(isinstance(v, dict) and v.get('enum') for v in self.upvar_consts.values()):
@@ -133,9 +137,16 @@ class Inliner:
                             uc = self.upvar_consts.get(o.proj[0][1])
                             if isinstance(uc, dict) and uc.get('enum') and uc['enum'].get('vi') is not None:
                                 st['rv'] = _use({'k': 'const', 'ty': 'isize', 's': 'const %d_isize' % uc['enum']['vi'], 'int': uc['enum']['vi']})
+        if self.minimal:
+            v = Body(j, body.facts)
+            v.orig_id = body.id
+            v.is_view = True
+            return v
         if j['inlined']:
             if fold_const_str_eq(j, body.facts):
                 j['inlined'].append('fold:str-eq')
+            if fold_const_enum_eq(j, body.facts):
+                j['inlined'].append('fold:enum-eq')
             fold_const_switches(j, body.facts)
             thread_known_variants(j)
         if thread_reaching_consts(j):
@@ -184,6 +195,7 @@ class Inliner:
             if nb['term']['k'] == 'return' and not nb['cleanup']:
                 rets.append(offB + i)
         j['inlined'].append(g.name)
+        j.setdefault('inlined_ids', []).append(g.id)
         return offL, offB, rets
 
     def _inline_helper(self, j, b, c, chain, origin_of_block):
@@ -1115,6 +1127,42 @@ def fold_const_str_eq(j, facts):
         blk['term'] = {'k': 'goto', 'target': t['target']}
         n += 1
     return n
+
+def fold_const_enum_eq(j, facts):
+    """`end == SeqEnd::Lenient` where `end` is a helper's parameter bound, at this inlined call site, to a unit variant
+    of a field-less enum of the crate whose `PartialEq` is derived (it compares discriminants): the call becomes the
+    constant answer"""
+    tmp = Body(j, facts)
+    derived = set()
+    for im in facts.impls:
+        if (im.get('trait') or '').split('<')[0] == 'std::cmp::PartialEq' and im.get('derived'):
+            derived.add(im.get('self'))
+    n = 0
+    for b in sorted(tmp.live_blocks):
+        blk = j['blocks'][b]
+        t = blk['term']
+        if t['k'] != 'call' or t.get('target') is None or len(t.get('args') or []) != 2:
+            continue
+        fd = _fn_def(t)
+        if fd not in ('std::cmp::PartialEq::eq', 'std::cmp::PartialEq::ne'):
+            continue
+        vals = []
+        for a in t['args']:
+            o = single_origin(trace_operand(tmp, a, through_calls=set()))
+            v = None
+            if o is not None and o.kind == 'agg' and not o.proj and o.data[2].get('agg') == 'adt' and not o.data[2].get('ops'):
+                adt = facts.adt_by_name.get(o.data[2].get('adt'))
+                if adt is not None and adt.get('kind') == 'Enum' and o.data[2].get('adt') in derived and all(not vv['fields'] for vv in adt['variants']):
+                    v = (o.data[2]['adt'], o.data[2].get('variant'))
+            vals.append(v)
+        if vals[0] is None or vals[1] is None or vals[0][0] != vals[1][0]:
+            continue
+        ans = (vals[0] == vals[1]) if fd.endswith('::eq') else (vals[0] != vals[1])
+        blk['stmts'].append(_assign(t['dest'], _use({'k': 'const', 'ty': 'bool', 's': 'const %s' % ('true' if ans else 'false'), 'int': 1 if ans else 0}), blk.get('span')))
+        blk['term'] = {'k': 'goto', 'target': t['target']}
+        n += 1
+    return n
+
 
 def fold_const_switches(j, facts):
     """a switch on a local whose only definition is a constant (a helper's flag parameter bound to `true` at the
